@@ -63,6 +63,11 @@ def configs(tier, seed):
         rnd.shuffle(order)
         out.append({"kind": "monitor", "trg": [TRG[rnd.randrange(3)] for _ in range(n)], "order": order,
                     "montrg": TRG[rnd.randrange(3)]})
+    # few edge-triggered sources at scattered positions among level-triggered ones (index 8 next to index 1: a set of
+    # small integers is not iterated in ascending order once an element wraps around its hash table)
+    for n, edges in ((10, {1: "rise", 8: "fall"}), (12, {3: "fall", 8: "rise", 9: "fall"}), (18, {0: "rise", 16: "fall", 17: "rise"})):
+        out.append({"kind": "monitor", "trg": [edges.get(i, "level") for i in range(n)], "order": list(range(n)),
+                    "montrg": "level"})
     for depth in (() if not _HAVE_EM else (3, 4, 5) if tier == "quick" else (3, 4, 5, 6)):
         out.append({"kind": "eventmap", "calls": depth})
     return out
